@@ -649,6 +649,88 @@ theorem resolveQueue_fails {res : Resolver} {q : List Mod} {env : Env} {m : Mod}
       obtain ⟨env2, ms', e2⟩ := r2
       exact this
 
+/-! ## what ANY run of the first loop of `MIR_link` (successful or not) may do to the environment -/
+
+/-- `env'` differs from `env` only by names that were undefined and that the resolver resolves -/
+def Grows (res : Resolver) (env env' : Env) : Prop :=
+  ∀ n, env'.lookup n = env.lookup n ∨
+       (env.lookup n = none ∧ ∃ a, res n = some a ∧ env'.lookup n = some (.ext a))
+
+theorem Grows.refl (res : Resolver) (env : Env) : Grows res env env := fun _ => Or.inl rfl
+
+theorem Grows.trans {res : Resolver} {e1 e2 e3 : Env} (h1 : Grows res e1 e2) (h2 : Grows res e2 e3) :
+    Grows res e1 e3 := by
+  intro n
+  rcases h2 n with h | ⟨hn, a, ha, h3⟩
+  · rw [h]; exact h1 n
+  · rcases h1 n with h | ⟨hn1, a1, ha1, h21⟩
+    · exact Or.inr ⟨by rw [← h]; exact hn, a, ha, h3⟩
+    · rw [h21] at hn; cases hn
+
+theorem resolveImps_grows (res : Resolver) (imps : List (Name × Use)) (env : Env)
+    (acc : List (Name × Def)) : Grows res env (resolveImps res imps env acc).1 := by
+  induction imps generalizing env acc with
+  | nil => exact Grows.refl res env
+  | cons p rest ih =>
+    obtain ⟨n, u⟩ := p
+    simp only [resolveImps]
+    cases hl : env.lookup n with
+    | some d => exact ih env _
+    | none =>
+      cases hr : res n with
+      | none => exact Grows.refl res env
+      | some a =>
+        refine Grows.trans ?_ (ih _ _)
+        intro m
+        rw [lookup_cons_eq]
+        by_cases hmn : m = n
+        · subst hmn; exact Or.inr ⟨hl, a, hr, by simp⟩
+        · exact Or.inl (by rw [if_neg hmn])
+
+theorem resolveQueue_grows (res : Resolver) (q : List Mod) (env : Env) :
+    Grows res env (resolveQueue res q env).1 := by
+  induction q generalizing env with
+  | nil => exact Grows.refl res env
+  | cons m ms ih =>
+    simp only [resolveQueue]
+    have h1 := resolveImps_grows res m.imps env []
+    generalize resolveImps res m.imps env [] = r at h1
+    obtain ⟨env1, bs, e1⟩ := r
+    cases e1 with
+    | some e => exact h1
+    | none =>
+      simp only
+      have h2 := ih env1
+      generalize resolveQueue res ms env1 = r2 at h2
+      obtain ⟨env2, ms', e2⟩ := r2
+      exact Grows.trans h1 h2
+
+/-- the first loop only writes `binds`: identity, imports, inlined bodies, interface stay -/
+def sameButBinds (m m' : Mod) : Prop :=
+  m'.id = m.id ∧ m'.imps = m.imps ∧ m'.inl = m.inl ∧ m'.iface = m.iface ∧ m'.coded = m.coded
+
+theorem forall2_refl {α} {R : α → α → Prop} (h : ∀ a, R a a) (l : List α) : Forall2 R l l := by
+  induction l with
+  | nil => exact .nil
+  | cons a as ih => exact .cons (h a) ih
+
+theorem resolveQueue_shape (res : Resolver) (q : List Mod) (env : Env) :
+    Forall2 sameButBinds q (resolveQueue res q env).2.1 := by
+  induction q generalizing env with
+  | nil => exact .nil
+  | cons m ms ih =>
+    simp only [resolveQueue]
+    generalize resolveImps res m.imps env [] = r
+    obtain ⟨env1, bs, e1⟩ := r
+    cases e1 with
+    | some e => exact forall2_refl (fun a => ⟨rfl, rfl, rfl, rfl, rfl⟩) _
+    | none =>
+      simp only
+      have h2 := ih env1
+      generalize resolveQueue res ms env1 = r2 at h2
+      obtain ⟨env2, ms', e2⟩ := r2
+      exact .cons ⟨rfl, rfl, rfl, rfl, rfl⟩ h2
+
 /-! bounded TEST (not a theorem about all inputs): `declsOk`, used by `mirdrv_c13 spec` to mark module
 texts on which the property statement is silent, agrees with `build` succeeding on all 585 texts of
 length ≤ 3 over this alphabet -/
